@@ -129,7 +129,7 @@ impl<S: Spec> Machine for AllocMachine<S> {
             let r = &mut self.r;
             match guard(|| S::canon_push(r, &v)) {
                 Ok(_) => {}
-                Err(p) if self.e.zst && p.contains("capacity overflow") => return Step::Refused(p),
+                Err(p) if self.e.zst && crate::engine::exhaustion(&p) => return Step::Refused(p),
                 Err(p) => return Step::Violation(format!("push panicked: {p}")),
             }
             self.pushed.push(op as usize);
@@ -178,7 +178,7 @@ impl<S: Spec> Machine for AllocMachine<S> {
             }
         };
         if let Err(p) = pre {
-            if self.e.zst && p.contains("capacity overflow") {
+            if self.e.zst && crate::engine::exhaustion(&p) {
                 // more than usize::MAX zero-sized elements announced: resource exhaustion, not in the model
                 return Step::Refused(p);
             }
@@ -207,7 +207,7 @@ impl<S: Spec> Machine for AllocMachine<S> {
         });
         let calls = match res {
             Ok(c) => c,
-            Err(p) if self.e.zst && p.contains("capacity overflow") => return Step::Refused(p),
+            Err(p) if self.e.zst && crate::engine::exhaustion(&p) => return Step::Refused(p),
             Err(p) => return Step::Violation(format!("push panicked: {p}")),
         };
         let after = caps(&self.r);
@@ -301,7 +301,7 @@ impl<S: Spec> Machine for LogMachine<S> {
         });
         let calls = match res {
             Ok(c) => c,
-            Err(p) if self.e.zst && p.contains("capacity overflow") => return Step::Refused(p),
+            Err(p) if self.e.zst && crate::engine::exhaustion(&p) => return Step::Refused(p),
             Err(p) => return Step::Violation(format!("push panicked: {p}")),
         };
         let mut storages = 0usize;
